@@ -76,6 +76,11 @@ TEXT = {
   level_text="Generated sequences of reload attempts, each a generated configuration plus a generated fault (file, YAML, validation, bad cipher in service i / legacy key j, unbindable listener j of service i), run against the real main package; after every attempt the full endpoint x key matrix over everything ever mentioned is compared with the last configuration that loaded, and after Stop the process must be back to its baseline of goroutines and sockets.",
   level_note="Faults are enumerated by generation over (stage, i, j), not by instrumenting the loader; one process per case.",
  ),
+ "C11": dict(
+  technique="property-based testing (rapid) of generated reload sequences under continuous generated client load, judged from the server's own per-connection reports",
+  level_text="Generated sequences of configurations that all retain one address and key are hot-reloaded in the real main package (executor process) while hammering clients connect and send datagrams with the retained key and pre-existing relays in generated states wait; the oracle is over the whole history: no refusal or reset, exactly one generation handles each connection/datagram, the retained key authenticates throughout, relays finish byte-for-byte.",
+  level_note="Timing of connections relative to reloads is sampled by hammering; the evidence counts how many connections overlapped a reload.",
+ ),
 }
 def _na():
     from checks_table import CHECKS
